@@ -1,4 +1,5 @@
 mod c20;
+mod c20_net2;
 mod c23;
 mod c23_agents;
 mod c25;
